@@ -343,13 +343,15 @@ def replay(path):
     print("replay: re-run ./check C14 to re-evaluate this class of input")
     return 1
 
-LEVEL_TEXT = ("Proof: 14 Coq theorems (closed under the global context, no axioms) state that the Cantor, Rosenberg-Strong and Szudzik "
+LEVEL_TEXT = ("Proof: 28 Coq theorems (closed under the global context, no axioms) state that the Cantor, Rosenberg-Strong (2-d and d-dimensional), Szudzik and Pepis-Kalmar "
               "pairings and their projections are mutually inverse on all naturals, that the N<->Z maps, PairingToZd (d=2) and "
               "PairingToZ1d (every interval [-L,R], every index, hence every call order) are bijections onto the non-zero states, and "
               "that lazy_indices_product enumerates every tuple exactly once for all size lists. The straight-line functions are "
               "re-translated from /repo by py2coq on every run, so an edit re-checks the proofs; loops/classes are hand-modelled and "
-              "compared with the implementation by vm_compute on ~20k boundary and random cases. Partial: Pepis-Kalmar, n-d "
-              "Rosenberg-Strong, the hyperbolic pairing and StatesManager are covered by correspondence/oracle only.")
+              "compared with the implementation by vm_compute on ~22k boundary and random cases; StatesManager.project_index_to_state_increment is "
+              "proved (as a state machine) to return every in-grid index <= the maximum exactly once over increasing indices. Partial: the "
+              "hyperbolic pairing, the computation of the maximum index by Domain, reset histories and d >= 3 signed enumerations are covered "
+              "by correspondence/oracle only.")
 LEVEL_NOTE = ("Trusted: Coq kernel + vm_compute; py2coq translator (fail-closed, also cross-checked by running generated definitions "
               "against the implementation); Python ints modelled as Z, math.isqrt as Z.sqrt; caches modelled as identity.")
 TECHNIQUE = "Coq proof (lia/nia over Z, induction over size lists) on py2coq-generated definitions + vm_compute correspondence"
